@@ -410,13 +410,19 @@ theorem oracleEndBlock_params (s : State) : (oracleEndBlock s).st.os.params = s.
   · by_cases hc : slashWindowClosing s.h s.os.params.votePeriod s.os.params.slashWindow = true <;> simp [ht, hc]
   · simp [ht]
 
-theorem step_oparams (H : Str → Str) (s : State) (op : Op) (h : OParamsOk s) : OParamsOk (step H s op).st := by
+/-- a parameter change whose values also fit together (what `Params.Validate` demands; a governance proposal is held to less) -/
+def opParamsOk : Op → Prop
+  | .setOParams vp thr frac w m => oparamsKeyValid vp thr frac w m = true → oparamsValid vp thr frac w m = true
+  | _ => True
+
+theorem step_oparams (H : Str → Str) (s : State) (op : Op) (hop : opParamsOk op) (h : OParamsOk s) : OParamsOk (step H s op).st := by
   unfold OParamsOk at *
   cases op
   case setOParams vp thr frac w m =>
     simp only [step]
     split
-    · rename_i hv
+    · rename_i hk
+      have hv := hop hk
       simp only
       unfold oparamsValid at hv ⊢
       simp only [Bool.and_eq_true, bne_iff_ne, ne_eq, decide_eq_true_eq, beq_iff_eq] at hv ⊢
